@@ -220,6 +220,8 @@ def compare_sims(impl, model, stats, fails):
         stats["ticks"] += sum(1 for l in a["lines"] if l.startswith("K "))
         cls = next((l for l in a["lines"] if l.startswith("X ")), "X ?")
         stats["exit"][cls] = stats["exit"].get(cls, 0) + 1
+        mname = next((w[8:] for h in a["head"] for w in h.split() if w.startswith("machine=")), "?")
+        stats["machines"][mname] = stats["machines"].get(mname, 0) + 1
         for d in a["rules"]:
             f = d.split(".")
             if len(f) == 6:
@@ -405,7 +407,7 @@ def new_stats():
     return {"strings": 0, "accepted": 0, "rejected": 0, "histories": 0, "edits": 0, "edits_rejected": 0,
             "prints_with_suspended": 0, "by_edit": {}, "forms": {}, "distinct": set(),
             "sims": 0, "ticks": 0, "exit": {}, "sim_rules": {}, "show_lines": 0, "report_rows": 0,
-            "distinct_sim": set(), "suspension_differentials": 0, "config_rules": {}, "short_forms_checked": 0}
+            "distinct_sim": set(), "suspension_differentials": 0, "config_rules": {}, "short_forms_checked": 0, "machines": {}}
 
 
 def corpus_files():
@@ -436,7 +438,7 @@ def run(rep):
         "encoding/json replaces them by U+FFFD on save, so such a rule file does not reload identically)",
         "list indices are non-negative (cmd/simbox uses -1 for 'flag not given'; other negative indices panic in Del/Suspend/Reactivate)",
         "simulated machines have inert processors (program = one nop): the theorems hold for every machine step, "
-        "the correspondence exercises the rule machinery on the bond fabric of 3 small machines (wire, processor in line, fan-out)",
+        "the correspondence exercises the rule machinery on the bond fabric of 7 small machines of different shapes",
         "register size 8 in the simulations; set values are plain decimal literals; show/get types unsigned, hex, bin",
         "set rules naming a valid/recv flag (iKv, iKr, oKv, oKr) are accepted and silently have no effect in the code; "
         "the model follows the code here and the theorems exclude flags (see docs/C15.md, observation O2)",
@@ -472,11 +474,13 @@ def run(rep):
         "rule": "text: every documented example, the grid {absolute,relative}x{set,get,show}x{27 tick spellings}x{4,5 words}, "
                 "event and config forms with every option, every object mnemonic kind, seeded mostly-valid and malformed "
                 "strings; histories of add/del/suspend/reactivate (in and out of range) followed by JSON save+load; "
-                "sim: 32 fixed cases + seeded rule lists (absolute/periodic set, get, show, on-valid, on-exit, on-recv, config, "
+                "sim: 49 fixed cases + seeded rule lists (absolute/periodic set, get, show, on-valid, on-exit, on-recv, config, "
                 "suspended and deleted rules, rejected rules; one list in three opens with a bulk/plain config rule "
                 "(get_all, get_all_internal, show_all, show_all_internal x format, get_ticks, show_*), active or suspended, "
                 "followed by timed get/show rules in another format on elements it covers; one in three mixes on-valid / on-exit "
-                "show and get rules (short and long forms) with timed shows on different elements in random order) on 3 machines run through the real CLI; "
+                "show and get rules (short and long forms) with timed shows on different elements in random order) on 7 machines (wire, processor in line, fan-out, processor with more outputs than inputs, with more "
+                "inputs than outputs, machine and processor without inputs, two processors of different shapes; every nameable element "
+                "incl. the largest valid index of every kind and the first index past it) run through the real CLI; "
                 "every list with a suspended rule is also run with the suspended rules deleted and compared byte for byte. non-trivial = distinct "
                 "accepted rules + distinct simulations that completed and injected, showed or reported something",
         "samples": samples or [{"note": "correspondence did not run"}],
